@@ -140,7 +140,7 @@ class Leak:
             return any(t == base for t in subterms(path))
 
         def special(p):
-            return p[0] in ("lost", "ifnull", "reg", "dangling")
+            return p[0] in ("lost", "ifnull", "reg", "dangling", "rcvar")
 
         def kill_paths(st, pred):
             """Paths satisfying pred become invalid; a site left without any
@@ -239,7 +239,12 @@ class Leak:
                     if tgt[0] == "&" and trackable(tgt[1]) and local_rooted(tgt[1]):
                         sites.append(e)
                         st = kill_paths(st, lambda p: p == tgt[1])
-                        return st | frozenset([(e.pos, tgt[1])])
+                        st = st | frozenset([(e.pos, tgt[1])])
+                        # rc = asprintf(...): a later `rc == -1` test speaks about this site
+                        for pe in f.all_elems():
+                            if pe.is_assign and pe.op == "=" and pe.kid(1) is not None and pe.kid(1).strip() is e:
+                                st = st | frozenset([(e.pos, ("rcvar", norm(pe.kid(0))))])
+                        return st
                 g = self.prog.resolve(f, c) if c else None
                 if g is not None:
                     for k in releases_params(self.prog, g):
@@ -268,7 +273,7 @@ class Leak:
                 elif op == "!=" and R == ("c", 0):
                     st = frozenset(x for x in st if not (x[1][0] == "ifnull" and x[1][1] == L))
                 elif op == "==" and R == ("c", -1):
-                    st = drop_sites(st, set(x[0] for x in st if x[1] == L))
+                    st = drop_sites(st, set(x[0] for x in st if x[1] == L or x[1] == ("rcvar", L)))
                     if L[0] == "call" and L[1] == "asprintf" and len(L) > 2 and L[2][0] == "&":
                         st = drop_sites(st, set(x[0] for x in st if x[1] == L[2][1]))
                 elif op == "<" and R == ("c", 0):
@@ -290,7 +295,7 @@ class Leak:
             if is_failure_return(e):
                 seen = set()
                 for sidx, p in sorted(st, key=str):
-                    if p[0] in ("ifnull", "dangling") or sidx in seen:
+                    if p[0] in ("ifnull", "dangling", "rcvar") or sidx in seen:
                         continue
                     seen.add(sidx)
                     leaks.append((f.elem(sidx), p[1] if p[0] == "lost" else p, e))
@@ -477,7 +482,7 @@ class Atomic:
                 continue
             t = f.unit.types.get(a.ty) or {}
             pt = f.unit.types.get(t.get("pointee", "")) or {}
-            if t.get("kind") == "ptr" and not pt.get("const") and c not in ("strlen", "memcmp", "strcmp", "assert", "__assert_fail", "warn0", "warnp", "libcperciva_warn", "libcperciva_warnx"):
+            if t.get("kind") == "ptr" and not pt.get("const") and c not in ("strlen", "memcmp", "strcmp", "assert", "__assert_fail", "warn0", "warnp", "warn", "warnx", "libcperciva_warn", "libcperciva_warnx"):
                 return True
         return False
 
